@@ -220,25 +220,37 @@ def branchLoop : Nat → Reader → List (Bytes × Bytes) → Outcome (List (Byt
     let vr ← nr.2.str
     branchLoop n vr.2.tick (acc ++ [(nr.1, vr.1)])
 
+/-- what `reposMapDecode` reads at the start of one entry: repoID, HasSymbols, IndexTimeUnix (version 2 only) and
+    the entry's branch count -/
+structure EntryHead where
+  repoID : Int
+  hasSymbols : Bool
+  indexTime : Int
+  lb : Int
+
+def readEntryHead (readIndexTime : Bool) (r : Reader) : EntryHead × Reader :=
+  let repoID := r.uvarint.1
+  let r := r.uvarint.2
+  let hs := r.byt.1 == 1
+  let r := r.byt.2
+  let t := if readIndexTime then r.uvarint.1 else 0
+  let r := if readIndexTime then r.uvarint.2 else r
+  (⟨repoID, hs, t, r.uvarint.1⟩, r.uvarint.2)
+
 /-- the `for range l` loop of `reposMapDecode`; `cap` is `cap(allBranches)` (= the declared total), `all` the
     branches appended so far. `none` = `return nil, malformed`. -/
 def entryLoop (readIndexTime : Bool) (cap : Nat) : Nat → Reader → List (Bytes × Bytes) → RMap →
     Outcome (Option RMap × Reader)
   | 0, r, _, m => .ok (some m, r)
   | n + 1, r, all, m =>
-    let repoID := r.uvarint.1
-    let r := r.uvarint.2
-    let hs := r.byt.1 == 1
-    let r := r.byt.2
-    let t := if readIndexTime then r.uvarint.1 else 0
-    let r := if readIndexTime then r.uvarint.2 else r
-    let lb := r.uvarint.1
-    let r := r.uvarint.2
-    if lb < 0 ∨ lb > (cap : Int) - (all.length : Int) then .ok (none, r)
+    let h := (readEntryHead readIndexTime r).1
+    let r := (readEntryHead readIndexTime r).2
+    if h.lb < 0 ∨ h.lb > (cap : Int) - (all.length : Int) then .ok (none, r)
     else do
-      let ar ← branchLoop lb.toNat r all
-      let branches ← sliceFrom ar.1 ((ar.1.length : Int) - lb)
-      entryLoop readIndexTime cap n (ar.2.tick.charge 1) ar.1 (mapInsert m (repoID % 4294967296).toNat ⟨hs, branches, t⟩)
+      let ar ← branchLoop h.lb.toNat r all
+      let branches ← sliceFrom ar.1 ((ar.1.length : Int) - h.lb)
+      entryLoop readIndexTime cap n (ar.2.tick.charge 1) ar.1
+        (mapInsert m (h.repoID % 4294967296).toNat ⟨h.hasSymbols, branches, h.indexTime⟩)
 
 /-- `reposMapDecode`; the value `some none` is the nil map returned for empty input -/
 def reposMapDecode (b : Bytes) : Outcome (Ret (Option RMap)) :=
